@@ -30,9 +30,14 @@ ARGV = st.one_of(st.integers(-5, 5), st.sampled_from(["", "a", None, 0.5, True])
                  st.lists(st.integers(0, 3), max_size=2))
 
 
+# keyword names of the payload's own arguments - also names that a runtime API might be tempted to claim for itself
+# (`flavour` is the documented keyword of adopt/execute; `payload` and `self` are their positional parameters)
+KWARG_NAMES = ["a", "b", "key", "flavour_", "x", "timeout", "delay", "name", "loop", "args", "kwargs", "block", "target", "daemon", "callback"]
+
+
 @st.composite
 def arguments(draw):
-    return {"args": draw(st.lists(ARGV, max_size=3)), "kwargs": draw(st.dictionaries(st.sampled_from(["a", "b", "key", "flavour_", "x"]), ARGV, max_size=3))}
+    return {"args": draw(st.lists(ARGV, max_size=3)), "kwargs": draw(st.dictionaries(st.sampled_from(KWARG_NAMES), ARGV, max_size=3))}
 
 
 @st.composite
@@ -63,6 +68,9 @@ def steady(draw):
                     shape = draw(st.sampled_from([None, None, None, None, "no-module", "partial", "instance", "method"]))
                     if shape:
                         p["callable"] = shape
+                elif draw(st.integers(0, 3)) == 0:
+                    # service objects with value semantics: all equal and hashing alike, or unhashable
+                    p["value_semantics"] = draw(st.sampled_from(["equal", "equal", "unhashable"]))
                 elif draw(st.integers(0, 3)) == 0:
                     # the service class refines a service class that was declared for another flavour
                     p["refines"] = draw(st.sampled_from([f for f in ALL if f != flv]))
@@ -273,7 +281,8 @@ def run_case(sc) -> Result:
     res = judge(sc, obs)
     flavours = {p["flavour"] for p in sc["payloads"] if p["role"] in ("adopt", "service")}
     in_window = getattr(res, "info_in_window", 0)
-    res.cls("refined-service:" + str(any(p.get("refines") for p in sc["payloads"])))
+    res.cls("refined-service:" + str(any(p.get("refines") for p in sc["payloads"])),
+            "value-semantics-service:" + str(any(p.get("value_semantics") for p in sc["payloads"])))
     res.cls("phase:" + sc["phase"], "flavours:%d" % len(flavours), "payloads:%s" % ("0" if not sc["payloads"] else "<10" if len(sc["payloads"]) < 10 else ">=10"),
             "adopts-in-cleanup-window:%s" % ("0" if not in_window else "1-5" if in_window <= 5 else ">5"))
     for p in sc["payloads"]:
